@@ -100,6 +100,9 @@ func newServer(t *testing.T, objs []object) *simServer {
 		DebounceTime:      debounce,
 	})
 	s.Discovery.RequestRateLimit = rate.NewLimiter(0, 1)
+	// production wiring: one cache for the server, its generators and the endpoint index (the fake leaves
+	// the endpoint index with the cache of an Environment nobody reads)
+	model.VerifSetEndpointIndexCache(s.Discovery.Env.EndpointIndex, s.Discovery.Cache)
 	srv := &simServer{t: t, s: s}
 	srv.settle()
 	srv.flushServer()
